@@ -92,7 +92,7 @@ class C03(PropCheck):
                     continue
                 r = a["radios"][0]
                 what = None
-                viol = [v for v in r.get("viol", "[]")[1:-1].split("|") if v and v != "SETUP_AW:illegal:0"]
+                viol = [v for v in r.get("viol", "[]")[1:-1].split("|") if v and v != "SETUP_AW:illegal:0" and not v.startswith("CE:")]
                 if viol and not suspended:
                     what = f"reserved/out-of-range register write logged by the radio: {viol[-1]}"
                 elif k >= 2 and not suspended and a["obj"]:
